@@ -63,6 +63,8 @@ template<typename T, typename Maker> struct QuantFam {
   }
   static const bool HAS_MERGE_REF = true, HAS_MERGE_MOVE = true, HAS_RESET = false, HAS_ROUNDTRIP = true;
   // x.merge(x): the sketch then summarises its stream twice
+  static const bool SINGLE_INSTANCE = true;
+  static Arena* arena_of(const Obj& o) { return o.get_allocator().arena; }
   static const int SELF_MERGE = SM_DOUBLES;
   static SelfMergeFacts self_merge_facts(const Obj& o, const Cfg&) {
     SelfMergeFacts f;
